@@ -917,6 +917,14 @@ func (fv *FuncVal) Outer(v ssa.Value) ssa.Value {
 				return b
 			}
 		}
+	case *ssa.Parameter:
+		if fv.recv != nil && len(fv.Fn.Params) > 0 && x == fv.Fn.Params[0] {
+			return Resolve(fv.recv)
+		}
+	case *ssa.ChangeType:
+		if o := fv.Outer(x.X); o != Resolve(x.X) {
+			return o
+		}
 	case *ssa.Field:
 		if fv.recv != nil && len(fv.Fn.Params) > 0 && Resolve(x.X) == ssa.Value(fv.Fn.Params[0]) {
 			if b := literalField(fv.recv, x.Field); b != nil {
